@@ -278,6 +278,11 @@ impl Hist {
         }
         k.hold = *r.pick(&[1u8, 1, 1, 2, 3, 5]);
         k.wake_on_ready = r.chance(1, 8);
+        k.other_first = r.chance(1, 2);
+        if k.self_wake > 0 && id > 0 && r.chance(1, 4) {
+            // self-waker that also pokes somebody else's (possibly stale) waker on every poll
+            k.wake_other = Some(r.below(id as usize) as u32);
+        }
         if self.allow_panics && r.chance(1, 10) {
             if r.chance(1, 2) {
                 k.panic_in_poll = r.range(1, 2) as u32;
@@ -288,7 +293,7 @@ impl Hist {
         if self.kind.is_try() {
             k.fail = r.chance(1, 5);
         }
-        let nest = matches!(self.kind, Kind::Fub | Kind::Fu | Kind::Fob | Kind::Fo | Kind::JoinAll) && !self.w.plain_join.get() && r.chance(1, 12);
+        let nest = matches!(self.kind, Kind::Fub | Kind::Fu | Kind::Fob | Kind::Fo | Kind::JoinAll) && !self.w.plain_join.get() && !self.w.unit_join.get() && r.chance(1, 12);
         if mutual {
             // a pair that wake each other whenever they are polled (ping-pong, never themselves)
             if let Some(o) = k.wake_other {
@@ -345,6 +350,12 @@ impl Hist {
         k.hold = *r.pick(&[1u8, 1, 2, 3]);
         if r.chance(1, 6) {
             k.self_wake = r.range(1, 3) as u32;
+        }
+        if r.chance(1, 6) {
+            k.wake_on_ready = true;
+            if id > 0 && r.chance(2, 3) {
+                k.wake_other = Some(r.below(id as usize) as u32);
+            }
         }
         id
     }
@@ -839,6 +850,11 @@ impl Hist {
                 self.h(0xA4);
                 self.on_join_vec(v);
             }
+            Yield::Units(n) => {
+                w.event(ev::POLL_END, 4, n as u64);
+                self.h(0xA5);
+                self.on_join_units(n);
+            }
             Yield::Unit => {}
         }
     }
@@ -1013,6 +1029,30 @@ impl Hist {
             }
         }
         drop(v);
+    }
+
+    /// join of inputs with a zero-sized output: the values carry nothing, the count does
+    fn on_join_units(&mut self, n: usize) {
+        let w = self.w.clone();
+        let ids = self.join_ids.clone();
+        if !self.join_ready_seen {
+            self.join_ready_seen = true;
+            if n != ids.len() {
+                w.violation("C07", "wrong_length", format!("join of {} inputs resolved to {n} elements", ids.len()));
+            }
+            let not_done = ids.iter().copied().find(|id| w.kids.borrow()[*id as usize].state != KState::Done);
+            if let Some(id) = not_done {
+                w.violation("C07", "resolved_before_all_inputs", format!("resolved while input kid {id} has not finished"));
+            }
+            for id in &ids {
+                self.yielded.insert(*id);
+            }
+            self.n_yielded += ids.len() as u64;
+            self.held.clear();
+            self.order.clear();
+        } else if n > 0 {
+            w.violation("C07", "value_handed_out_twice", format!("{n} more outputs handed out after completion, all {} were handed out before", ids.len()));
+        }
     }
 
     fn on_join_err(&mut self, id: u32) {
@@ -1414,7 +1454,11 @@ impl Hist {
                     {
                         let mut ks = w.kids.borrow_mut();
                         let k = &mut ks[id as usize];
+                        // nobody keeps anybody busy any more (a poke at a stale waker may alias
+                        // the poker's own slot and act as a perpetual self-wake)
+                        k.wake_other = None;
                         if k.is_src {
+                            k.self_wake = 0;
                             // drop the remaining gaps
                             while k.script.get(k.pos) == Some(&SrcStep::Gap) {
                                 k.pos += 1;
@@ -1813,7 +1857,7 @@ fn run_history_once(p: &Params, hist_index: u64) -> HistResult {
     let kind = p.kind.unwrap_or_else(|| *h.rng.pick(kinds));
     let small = p.small;
     // children (C07, C06) and outputs (C06) of the join combinators may panic
-    h.allow_panics = matches!(p.prop, 6 | 7) && !p.no_panics && kind.is_join() && h.rng.chance(1, 3);
+    h.allow_panics = matches!(p.prop, 5 | 6 | 7) && !p.no_panics && (kind.is_join() || (p.prop == 5 && matches!(kind, Kind::Fub | Kind::Fu | Kind::Fob | Kind::Fo))) && h.rng.chance(1, 3);
     if h.allow_panics && h.rng.chance(1, 2) {
         w.panic_outputs.set(true);
     }
@@ -1863,6 +1907,9 @@ fn run_history_once(p: &Params, hist_index: u64) -> HistResult {
     if kind == Kind::JoinAll && !h.allow_panics && h.rng.chance(1, 4) {
         // inputs without drop glue (plain data): the combinator must still drop their outputs
         w.plain_join.set(true);
+    } else if kind == Kind::JoinAll && !h.allow_panics && h.rng.chance(1, 6) {
+        // inputs with a zero-sized output: nothing to poison, but the length must be exact
+        w.unit_join.set(true);
     }
     let ok = h.construct(kind, ctor, cap, n_init, start);
     let max_ops = p.max_ops.max(5);
